@@ -501,8 +501,9 @@ def parseListVal (s : String) : LL.ListVal :=
 
 def opBodies (fields : List String) : String :=
   match fields with
-  | [bools, ints, strs, lists, exts] =>
+  | [bools, ints, strs, lists, exts, times] =>
     let v : LL.View := {
+      times := (parsePairs times ",").map (fun p => (p.1, parseTime p.2))
       bools := (parsePairs bools ",").map (fun p => (p.1, p.2 == "1"))
       ints := (parsePairs ints ",").map (fun p => (p.1, p.2.toInt?.getD 0))
       strs := (parsePairs strs ",").map (fun p => (p.1, if p.2 == "-" then [] else (unhexBytes p.2).getD []))
@@ -513,7 +514,7 @@ def opBodies (fields : List String) : String :=
     -- every field the table names must be in the view: a missing field is an error, never a default
     let have_ (k : Nat) (kind : String) : Bool :=
       if kind == "bool" then v.bools.any (·.1 == k) else if kind == "int" then v.ints.any (·.1 == k)
-      else if kind == "str" then v.strs.any (·.1 == k) else v.lists.any (·.1 == k)
+      else if kind == "str" then v.strs.any (·.1 == k) else if kind == "time" then v.times.any (·.1 == k) else v.lists.any (·.1 == k)
     let missing := ((List.range Generated.bodyFieldNames.length).zip Generated.bodyFieldNames).filter (fun p => !have_ p.1 p.2.2)
     if !missing.isEmpty then "missing-field " ++ " ".intercalate (missing.map (·.2.1)) else
     ",".intercalate (Generated.bodyRules.map (fun r => match r.run v with
